@@ -189,6 +189,7 @@ MUTANTS = [
     M('lex:hardware_ident:dollar-alone-is-a-qubit', 'lex', ['C15'], "Cursor<'_>::hardware_ident", 'if !self.eat_decimal_digits() {', 'if self.eat_decimal_digits() {'),
     M('parser:identifier:completed-as-literal', 'parser', ['C05'], 'identifier', 'm.complete(p, IDENTIFIER)', 'm.complete(p, LITERAL)'),
     M('lex:bitstring:underscore-flag-on-any-second-underscore', 'lex', ['C15'], "Cursor<'_>::double_quoted_string", "                    if prev_char == '_' {\n", "                    if prev_char == '_' || !only_ones_and_zeros {\n"),
+    # (D39 pieces are sidecar-wrapped copies of /repo text: not addressable by the mutation table; exercised by tools/benign_battery.sh and the seeds)
     # ---- LEX extents
     M('lex:line_comment:stops-at-space', 'lex', ['C15', 'C14'], "Cursor<'_>::line_comment", "{ c != '\\n' });", "{ c != '\\n' && c != ' ' });"),
     M('lex:eat_identifier:start-test-inverted', 'lex', ['C15'], "Cursor<'_>::eat_identifier", 'if !is_id_start(self.first()) {', 'if is_id_start(self.first()) {'),
